@@ -891,3 +891,25 @@ Lemma evars_in es x : In x es -> (evars x <= evars (EStruct es))%nat.
 Proof. cbn [evars]. induction es as [|y es IH]; intros Hin; [destruct Hin|]. cbn [fold_right]. destruct Hin as [->|Hin]; [lia|]. specialize (IH Hin). lia. Qed.
 Lemma edepth_in es x : In x es -> 1 + edepth x <= edepth (EStruct es).
 Proof. cbn [edepth]. induction es as [|y es IH]; intros Hin; [destruct Hin|]. cbn [fold_right]. destruct Hin as [->|Hin]; [lia|]. specialize (IH Hin). lia. Qed.
+
+(* the EVar clause with enter_container unfolded *)
+Lemma unmarshal_t_var_eq' vf be x c : unmarshal_t (S vf) be (EVar x) c =
+  do r <- u_read_sig c;
+  match parse_description (fst r) with
+  | Ok [t'] =>
+      do c1 <- u_align (align t') (snd r);
+      if MAX_DEPTH <=? udepth c1 then Err else
+      do n <- validate 66 be (udepth c1 + 1) (uoff c1) (ubuf c1) t';
+      do s <- u_sub n c1;
+      if ty_eqb t' (erase x) then
+        do v <- unmarshal_t vf be x (fst s);
+        Ok (VVariant t' (fst v), snd s)
+      else Err
+  | _ => Err
+  end.
+Proof.
+  rewrite unmarshal_t_var_eq. destruct (u_read_sig c) as [r| | | |]; cbn [bind]; try reflexivity.
+  destruct (parse_description (fst r)) as [[|t' [|]]| | | |]; try reflexivity.
+  destruct (u_align (align t') (snd r)) as [c1| | | |]; cbn [bind]; try reflexivity.
+  unfold u_enter. destruct (MAX_DEPTH <=? udepth c1); reflexivity.
+Qed.
